@@ -138,6 +138,8 @@ def proj_dataset(ds: xarray.Dataset) -> list[dict]:
 
 
 def pt(p) -> shapely.Point:
+    if p[0] == NANQ or p[1] == NANQ:
+        return shapely.Point(float("nan"), float("nan"))      # a row without a position
     return shapely.Point(p[0] * SCALE, p[1] * SCALE)
 
 
@@ -354,6 +356,12 @@ def poly_collection(w, ds, conv, e) -> dict:
         data = e["var"] if e.get("mode", "name") == "name" else ds[e["var"]].copy()
         if e.get("mode") == "anon":
             data = xarray.DataArray(ds[e["var"]].values, dims=ds[e["var"]].dims)
+        if e.get("mode") == "relabelled":
+            # the same grid from another product: same dimensions in the same order, OTHER labels on them (0..360 longitudes,
+            # cell numbers, reversed labels): values are paired with cells by position
+            src = ds[e["var"]]
+            data = xarray.DataArray(numpy.asarray(src.values), dims=src.dims,
+                                    coords={d: (numpy.arange(src.sizes[d])[::-1] * 7.0 + 360.0) for d in src.dims}, name=src.name)
     make = conv.make_patch_collection if e.get("api") == "make_patch_collection" else conv.make_poly_collection
     coll = make(data, **kwargs) if data is not None else make(**kwargs)
     paths = [ring_q(p.vertices) for p in coll.get_paths()]
